@@ -143,7 +143,7 @@ def build(x):
     nx = x.method(F, 'FlatMap', 'next', trait='Operator')
     drop_cfg_not_timestamp_arms(nx)
     nx.sub('V-ATTR', r'[ \t]*#\[cfg\(feature = "timestamp"\)\]\s*\n', '', detail='`#[cfg(feature = "timestamp")]` on a match arm dropped (feature ON)')
-    nx.replace_exact('V-TRAIT', 'StreamElement<Self::Out>', 'StreamElement<It::Item>', detail='associated type Out substituted by its definition')
+    nx.replace_exact('V-TRAIT', 'StreamElement<Self::Out>', 'StreamElement<It::Item>', detail='associated type Out substituted by its definition', count=None)
     nx.name_result('r')
     nx.add_spec(NEXT_SPEC)
     nx.text = '#[verifier::exec_allows_no_decreases_clause]\n' + nx.text
